@@ -47,9 +47,12 @@ def o2(W, ob):
     adj = sites(W, f, ST + '::adjust_gamestate')
     ob.require_count(len(adj), 1, 'adjust_gamestate call in SyncTestSession::advance_frame')
     clos = [c for c in W.closures_of(f) if any(callee_matches(t.callee, ST + '::checksums_consistent') for t in c.calls())]
-    ob.require_count(len(clos), 1, 'comparison closure (checksums_consistent)')
+    # ... or an explicit loop over the same range that calls checksums_consistent itself
+    direct = [t for t in f.calls() if callee_matches(t.callee, ST + '::checksums_consistent')]
+    ob.require_count(len(clos) + len(direct), 1, 'comparison closure (checksums_consistent)')
     # where the closure is built and driven: filter(..) / collect()
     drive = [t.bb for t in f.calls() if last_seg(t.callee.best) in ('filter', 'collect') and 'RangeInclusive' in key(cx.expr_operand(t.args[0]))]
+    drive += [t.bb for t in direct]
     rng = [t for t in f.calls() if last_seg(t.callee.best) == 'new' and 'RangeInclusive' in (t.callee.best or '')]
     ob.require_count(len(rng), 1, 'comparison range')
     for t in rng:
